@@ -42,6 +42,60 @@ fn outcome_key(o: &Outcome) -> String {
 
 // Everything the five monitors need to know about one program.
 pub fn examine(text: &str, which: Which, tier: Tier) {
+    examine_at(text, which, tier, 0)
+}
+
+// Closed source texts of the simple type `t` (int, bool, type and non-dependent explicit function types
+// over them), two per base type so that both branches of a test on the argument are taken.
+fn inhabitants(t: &M, first_only: bool) -> Vec<String> {
+    let mut v = match t {
+        M::Int => vec!["0".to_owned(), "3".to_owned()],
+        M::Bool => vec!["true".to_owned(), "false".to_owned()],
+        M::Type => vec!["int".to_owned(), "bool".to_owned()],
+        M::Pi(_, false, a, b) => {
+            let (Some(b), true) = (crate::model::mterm::shift(b, 0, -1), sem::is_closed(a)) else { return vec![] };
+            let dom = surface::print(&sem::m_to_s(a, &mut vec![]));
+            inhabitants(&b, true).into_iter().map(|r| format!("((w : {dom}) => {r})")).collect()
+        }
+        _ => vec![],
+    };
+    if first_only {
+        v.truncate(1);
+    }
+    v
+}
+
+// Elimination contexts. An accepted program whose reported type is a function type over a simple domain
+// is, applied to a closed argument of that domain, another program: `(P) a`. If the front end accepts it
+// (it should; if it does not, nothing is concluded) it is examined like every other program, and so is
+// its application to a second argument. This is where a checker that accepted P at the wrong type shows
+// at run time: the monitors of C01, C02, C04 and C06 see the states of `(P) a`.
+fn applications(text: &str, ty: &M, which: Which, tier: Tier, depth: usize) {
+    if depth >= 2 || ty.has_hole() {
+        return;
+    }
+    let mut ck = typing::Checker::new(sem::TYPING_FUEL);
+    let dom = match ck.eval(&typing::Env::Nil, ty) {
+        typing::V::Pi(false, dom, _) => {
+            let d = ck.force(&dom);
+            ck.quote(0, &d)
+        }
+        _ => return,
+    };
+    if ck.exhausted || dom.has_hole() {
+        return;
+    }
+    for a in inhabitants(&dom, depth > 0) {
+        let applied = format!("({text}) {a}");
+        if !screened(&applied) {
+            continue;
+        }
+        count!("derived_applications");
+        examine_at(&applied, which, tier, depth + 1);
+    }
+}
+
+fn examine_at(text: &str, which: Which, tier: Tier, depth: usize) {
     count!("evaluations");
     sem::front_end(text, |f| match f {
         FrontEnd::Panic { stage, message } => {
@@ -61,10 +115,14 @@ pub fn examine(text: &str, which: Which, tier: Tier) {
             if acc.source_has_holes {
                 count!("accepted_with_holes");
             }
+            if depth > 0 {
+                count!("derived_applications_accepted");
+            }
             match which {
                 Which::C03 => soundness(text, &acc),
                 _ => run(text, &acc, which, tier),
             }
+            applications(text, &acc.ty, which, tier, depth);
         }
     });
 }
